@@ -5,10 +5,10 @@ package main
 // Both are decided per pattern by complete language equality (product walk), see DESIGN.md.
 
 import (
-	"time"
 	"fmt"
 	"sort"
 	"strings"
+	"time"
 
 	auto "github.com/moorara/algo/automata"
 	"github.com/moorara/algo/grammar"
